@@ -144,3 +144,49 @@ TABLE: dict[str, list[tuple]] = {
          [], ""),
     ],
 }
+
+
+# ---- the multiset value object and the evidence accumulators of an event
+K, C = "each(P:self.items())[0]", "each(P:self.items())[1]"
+NONEMPTY = ("cmp", "0", "Eq", "len(P:events)", "0")
+MODEL_TABLE: dict[str, list[tuple]] = {
+    "EventSet.__init__": [
+        ("every occurrence in the list counts (a multiset, not a set)",
+         "store", "", "P:self[each(P:events)]",
+         ("(P:self.get(each(P:events),0) Add 1)",), [], [], ""),
+    ],
+    "EventSet.to_list": [
+        ("each type is listed as often as it was counted: EventSet(l)."
+         "to_list() is l up to order", "ret", "", "",
+         (f"[{K} for.. times(range({C}))]",), [], [], ""),
+    ],
+    "EventSet.to_frozenset": [
+        ("the types, without counts", "ret", "", "",
+         ("frozenset(P:self.keys())",), [], [], ""),
+    ],
+    "EventSet.get_repeated_events": [
+        ("the types that occur more than once, with their counts", "ret", "",
+         "", (f"{{{K}:{C} for.. if (1 Lt {C})}}",), [], [], ""),
+    ],
+    "Event.update_event_sets": [
+        ("a non-empty observation joins the successor sets", "call", "add",
+         "P:self.event_sets", ("EventSet(P:events)",), [NONEMPTY], [], ""),
+    ],
+    "Event.update_in_event_sets": [
+        ("a non-empty observation joins the predecessor sets", "call", "add",
+         "P:self.in_event_sets", ("EventSet(P:events)",), [NONEMPTY], [],
+         ""),
+    ],
+    "Event.remove_event_type_from_event_sets": [
+        ("every successor set that names the type is dropped, the others "
+         "are kept", "store", "", "P:self.event_sets",
+         ("{each(P:self.event_sets) for.. if (P:event_type NotIn "
+          "each(P:self.event_sets))}",), [], [], ""),
+    ],
+    "Event.remove_event_type_from_in_event_sets": [
+        ("every predecessor set that names the type is dropped, the others "
+         "are kept", "store", "", "P:self.in_event_sets",
+         ("{each(P:self.in_event_sets) for.. if (P:event_type NotIn "
+          "each(P:self.in_event_sets))}",), [], [], ""),
+    ],
+}
